@@ -357,6 +357,17 @@ func (w *idpWorld) putUser(name, email, cn string, groups []string, pw *string, 
 	}
 }
 
+// deleteUser: after a successful DELETE the account has no current password (a later PUT without one creates an account nobody can log in to)
+func (w *idpWorld) deleteUser(name string, faults []string) {
+	if len(faults) > 0 {
+		w.faulted = true
+	}
+	res := w.simple("deleteUser", "DELETE", "/users/"+name, []string{encStr(name)}, faults)
+	if strings.HasPrefix(res, "2") {
+		delete(w.curPw, name)
+	}
+}
+
 // checkAuthn: a reply that establishes a session from form credentials requires that user's password
 func (w *idpWorld) checkAuthn(res, user, pw string, hasCred bool, sid string) {
 	if !hasCred || sid != "" {
@@ -656,6 +667,28 @@ func (c *Ctx) genC19() {
 			w.login("alice", "pw-b", true, "", nil)
 			pwBudget -= 6
 		}
+		if h == 2 {
+			// an account deleted and created again (without a password, then with another one): what the deleted account's
+			// password opened stays closed, before and after a restart
+			pb := "pw-b"
+			w.login("alice", "pw-a", true, "", nil)
+			w.deleteUser("alice", nil)
+			w.login("alice", "pw-a", true, "", nil)
+			w.putUser("alice", "alice2@example.com", "Alice Again", []string{"guests"}, nil, nil)
+			w.login("alice", "pw-a", true, "", nil)
+			w.store.faults = nil
+			w.newServer()
+			w.toks = append(w.toks, "restart", "0")
+			w.impl = append(w.impl, "0/empty/-")
+			w.n++
+			w.login("alice", "pw-a", true, "", nil)
+			w.putUser("alice", "alice2@example.com", "Alice Again", []string{"guests"}, &pb, nil)
+			w.login("alice", "pw-a", true, "", nil)
+			w.login("alice", "pw-b", true, "", nil)
+			w.deleteUser("alice", nil)
+			w.login("alice", "pw-b", true, "", nil)
+			pwBudget -= 7
+		}
 		if h == 1 {
 			// several services, a restart, then requests for each of them: every entity keeps its own metadata
 			w.putService("svc2", entities[1], true, false, nil)
@@ -720,7 +753,7 @@ func (c *Ctx) genC19() {
 				}
 			case 2:
 				u := users[c.rng.Intn(3)]
-				w.simple("deleteUser", "DELETE", "/users/"+u, []string{encStr(u)}, faults())
+				w.deleteUser(u, faults())
 			case 3, 4:
 				id := c.pick("svc1", "svc2")
 				ent := entities[c.rng.Intn(3)]
